@@ -100,8 +100,6 @@ func casketfile(s Site) string {
 	return sb.String()
 }
 
-
-
 func c_hidden(s Site, rel string) bool { return rel == s.origin() }
 
 var locOK = regexp.MustCompile(`^/([^/\\]|$)`)
